@@ -194,17 +194,42 @@ def run(chk):
         rz = F.func1(cls + "::Workspace", "resize")
         chk.saw(rz)
         sized = [x for x in ws["fields"] if (x["ty"].get("c") == "eigen" and x["ty"].get("rows") == -1) or x["ty"].get("std") == "vector"]
+        # Workspace::resize interpreted in the two configurations its guard can distinguish: the key buffer's size differs
+        # from the requested count / equals it (whatever the statement shape: guard around the body, early return, locals)
+        wscls = cls + "::Workspace"
+        effs = {}
+        keyc = set()
+        for differ in (True, False):
+            I = sym.Interp(F, wscls)
+            env = {p_["id"]: I.make_value(p_["name"], p_["ty"]) for p_ in rz["params"]}
+            nsym = env[rz["params"][0]["id"]]
+
+            def orc(s_, c, I_, differ=differ, nsym=nsym):
+                c = sp.sympify(c)
+                szs = [x_ for x_ in c.free_symbols if x_ != nsym and (x_.name.endswith(".size") or x_.name.endswith(".rows"))]
+                if not szs or c.free_symbols - set(szs) - {nsym}:
+                    return None
+                keyc.update(x_.name.rsplit(".", 1)[0] for x_ in szs)
+                r = sp.simplify(c.xreplace({x_: (nsym + 1 if differ else nsym) for x_ in szs}))
+                return True if r == sp.true else False if r == sp.false else None
+            I.path_oracle = orc
+            try:
+                I.run_body(rz, env)
+            except sym.Unsupported as ex:
+                raise Broken("Workspace::resize not analysable: %s" % ex)
+            effs[differ] = [e for e in I.effects if e.op == "resize"]
         resized = {}
-        for nd in walk(rz["body"]):
-            if nd.get("k") == "call" and callee(nd).get("name") == "resize" and is_this_mem(nd.get("obj")):
-                resized[nd["obj"]["field"]] = pp(nd["args"][0])
+        for e in effs[True]:
+            resized[e.target] = e.value[0]
         for x in sized:
-            ok = x["name"] in resized and "num_segments" in resized[x["name"]]
-            chk.ob("C10-R3", "%s::Workspace::resize sizes %s from the segment count" % (cls, x["name"]), ok, loc(rz), "resize(%s)" % resized.get(x["name"]), construct="%s/Workspace/%s" % (cls, x["name"]))
-        # the guard compares the size of one of the buffers it resizes with the requested count
-        ifs = [nd for nd in walk(rz["body"]) if nd.get("k") == "if"]
-        okg = len(ifs) == 1 and any(nd.get("k") == "call" and callee(nd).get("name") == "size" and is_this_mem(nd.get("obj")) and nd["obj"]["field"] in resized for nd in walk(ifs[0]["cond"]))
-        chk.ob("C10-R3", "%s::Workspace::resize is keyed on the size of a buffer it resizes itself" % cls, okg, loc(rz), pp(ifs[0]["cond"]) if ifs else "", construct="%s/Workspace/key" % cls)
+            v = resized.get(x["name"])
+            ok = v is not None and sp.sympify(v).free_symbols == {nsym} and sp.Poly(sp.sympify(v), nsym).degree() == 1 and all(c_ > 0 for c_ in sp.Poly(sp.sympify(v), nsym).all_coeffs()[:1])
+            chk.ob("C10-R3", "%s::Workspace::resize sizes %s from the segment count" % (cls, x["name"]), ok, loc(rz), "resize(%s)" % (v,), construct="%s/Workspace/%s" % (cls, x["name"]))
+        # the key: the guard reads the size of a buffer that resize itself sets to exactly the requested count, and when
+        # that size already matches nothing is resized (so 'key matches' implies 'every buffer is sized for this count')
+        okg = len(keyc) >= 1 and all(k_ in resized and sym.is_zero(resized[k_] - nsym) for k_ in keyc) and not effs[False]
+        chk.ob("C10-R3", "%s::Workspace::resize is keyed on the size of a buffer it sets to the requested count" % cls, okg, loc(rz), "key buffer(s) %s" % sorted(keyc), construct="%s/Workspace/key" % cls)
+        resized = {k_: str(v).replace(str(nsym), "num_segments") for k_, v in resized.items()}
         # evaluate(): the workspace is sized for the current problem before any buffer is touched, and every buffer that
         # is read has been wholly defined earlier in the same evaluation on every path (wsdef.py)
         spline_cls = next(x["ty"]["n"] for x in ws["fields"] if x["name"] == "spline")
@@ -215,7 +240,7 @@ def run(chk):
             idx_resize = [k for k, s_ in enumerate(body) for nd in walk(s_) if nd.get("k") == "call" and callee(nd).get("fid") == rz["fid"] and s_.get("k") in ("expr", "decl")]
             idx_first_use = [k for k, s_ in enumerate(body) if W.fields_in(s_)]
             rzcall = [nd for s_ in body for nd in walk(s_) if nd.get("k") == "call" and callee(nd).get("fid") == rz["fid"]]
-            ok = len(idx_resize) == 1 and idx_first_use and idx_resize[0] < idx_first_use[0] and pp(rzcall[0]["args"][0]) == "num_segments_"
+            ok = len(idx_resize) >= 1 and idx_first_use and idx_resize[0] < idx_first_use[0] and pp(rzcall[0]["args"][0]) == "num_segments_"
             chk.ob("C10-R3", "%s evaluate sizes the workspace for the current problem before touching it" % cls, ok, loc(f), "", construct="%s/evaluate%s/resize-first" % (cls, inst))
             W.fn_stack.append(f)
             W.stmts(body)
